@@ -336,12 +336,31 @@ fn mutate(g: &G, op: u8, s: u64) -> G {
     }
     // two defects at once (only the valid / invalid bit and the absence of a panic are compared then): a member whose exterior
     // has collapsed to a point keeps a hole that is moved across a vertex of another member
-    if is_multi && op == 9 && polys.len() >= 2 && polys[pi].ext.len() <= 2 && !polys[pi].ext.is_empty() && !polys[pi].holes.is_empty() && pick(2, 3) == 0 {
-        let other = polys[(pi + 1) % polys.len()].ext[0];
+    if is_multi && op == 9 && polys.len() >= 2 && polys[pi].ext.len() <= 2 && !polys[pi].ext.is_empty() && pick(2, 3) == 0 {
+        // (everything doubled first, the hole then moved by an odd offset: its edges cross the other member's edges properly)
+        for q in polys.iter_mut() {
+            for r in std::iter::once(&mut q.ext).chain(q.holes.iter_mut()) {
+                for c in r.iter_mut() {
+                    *c = (2 * c.0, 2 * c.1);
+                }
+            }
+        }
+        let oi = (pi + 1) % polys.len();
+        let other = polys[oi].ext[pick(polys[oi].ext.len(), 6)];
+        if polys[pi].holes.is_empty() {
+            // (no hole of its own: a small square or triangle)
+            polys[pi].holes.push(if pick(2, 2) == 0 { vec![(0, 0), (2, 0), (2, 2), (0, 2), (0, 0)] } else { vec![(0, 0), (4, 0), (2, 6), (0, 0)] });
+        }
         let h0 = polys[pi].holes[0][0];
-        let d = (other.0 - h0.0 + pick(2, 4) as i64, other.1 - h0.1 - pick(2, 5) as i64);
+        let d = (other.0 - h0.0 - 1 + 2 * pick(2, 4) as i64, other.1 - h0.1 - 1 + 2 * pick(2, 5) as i64);
         for c in polys[pi].holes[0].iter_mut() {
             *c = (c.0 + d.0, c.1 + d.1);
+        }
+        // (the collapsed exterior goes inside the other member's envelope: disjoint envelopes are answered by a shortcut)
+        let (x0, y0, x1, y1) = ring_bbox(&polys[oi].ext);
+        let v = ((x0 + x1) / 2 + pick(3, 7) as i64 - 1, (y0 + y1) / 2);
+        for c in polys[pi].ext.iter_mut() {
+            *c = v;
         }
     }
     if is_multi || op >= 12 {
